@@ -278,3 +278,11 @@ impl McNode {
         "Error when calling process"
     }
 }
+
+#[cfg(anysystem_verif)]
+impl McNodeState {
+    /// Verification hook: the crash flag.
+    pub fn verif_is_crashed(&self) -> bool {
+        self.is_crashed
+    }
+}
